@@ -121,7 +121,11 @@ impl Iterator for SimSeqIter {
     type Item = SimValue;
     fn next(&mut self) -> Option<SimValue> {
         let (i, doc) = self.inner.next()?;
-        Some(SimValue { doc, at: self.at.as_ref().map(|a| a.child(Step::Index(i))) })
+        let at = self.at.as_ref().map(|a| {
+            history::log_source(Event::Pull { at: a.path(), index: i });
+            a.child(Step::Index(i))
+        });
+        Some(SimValue { doc, at })
     }
 }
 
